@@ -52,7 +52,7 @@ class Fn:
     def __init__(self, src, name, impl=None, mode="prove", wrap=None, ret="res", requires=(), ensures=(),
                  loops=(), closures=(), injects=(), rewrites=(), home=None, implicit_props=(), decreases=None,
                  sig_subst=(), body_subst=(), strip_log=True, attrs=(), canary=True, opens_impl=True, kind="fn",
-                 key=None, no_unwind=False):
+                 key=None, no_unwind=False, uses=None):
         self.src, self.name, self.impl, self.mode = src, name, impl, mode
         self.wrap, self.ret = wrap, ret
         self.requires, self.ensures = list(requires), list(ensures)
@@ -69,6 +69,7 @@ class Fn:
         self.strip_log, self.attrs, self.canary = strip_log, list(attrs), canary
         self.key = key or (f"{src}::{impl + '::' if impl else ''}{name}")
         self.no_unwind = no_unwind
+        self.uses = uses
 
     @property
     def fid(self):
@@ -466,6 +467,8 @@ def annotate_fn(f, override_requires=None, canary=False, drop_body=False):
             ed.insert(toks[m - 1].end, " }")
 
     # ---- injections
+    if f.uses:
+        ed.insert(toks[bo].end, f" broadcast use {f.uses}; ")
     if canary == "entry":
         ed.insert(toks[bo].end, " proof { " + mark("CANARY", f"{fid}#entry", "assert(false);") + " } ")
     for inj_i, inj in enumerate(f.injects):
